@@ -179,7 +179,13 @@ def connected(cells):
 
 def pair(rng):
     mode = rng.choice(['random', 'random', 'nested', 'share_edge', 'share_corner', 'equal', 'disjoint', 'cross', 'reflex_corner',
-                       'in_hole', 'over_hole'])
+                       'in_hole', 'over_hole', 'b_holed', 'b_holed'])
+    if mode == 'b_holed':
+        # the second operand carries the holes (its own plane frame starts at another vertex than the first operand's)
+        A = G.rect_cells(0, 0, rng.randint(6, 9), rng.randint(6, 9))
+        x, y = rng.randint(-3, 4), rng.randint(-3, 4)
+        B = G.rect_cells(x, y, x + rng.randint(6, 9), y + rng.randint(6, 9))
+        return mode, Shape(rng, A, rng.choice([0, 1])), Shape(rng, B, rng.choice([1, 2]))
     nh_a = nh_b = 0
     if mode == 'random':
         _, ca = base_cells(rng); _, cb = base_cells(rng)
@@ -405,6 +411,7 @@ def judge_split(ctx, desc):
         runs = sum(1 for i, v in enumerate(inside) if v and (i == 0 or not inside[i - 1]))
         if runs > 1 and 'reenters' not in cfg: cfg.append('reenters')
     if hole_loops: cfg.append('holes')
+    if desc.get('finite'): cfg.append('finite_' + desc['finite'])
     hverts = {(int(p[0]), int(p[1])) for h in hole_loops for p in h}
     if which == 'polyline' and any(tuple(p) in hverts for p in path[1:-1]): cfg.append('corner_on_hole')
     tags = list(cfg)
@@ -414,7 +421,7 @@ def judge_split(ctx, desc):
     desc = dict(desc, configuration=sorted(set(tags)))
     ctx.count('split.' + which, key=(len(cells), len(comps), tuple(sorted(set(tags)))), sample=desc, nontrivial=len(comps) > 1)
     # the dominant configuration names the kind: corner_on_hole > along_edge > reenters > holes > plain
-    kind = 'split.%s:%s' % (which, ([t for t in ('corner_on_hole', 'along_edge', 'reenters', 'holes') if t in cfg] + ['plain'])[0])
+    kind = 'split.%s:%s' % (which, ([t for t in ['finite_hole_to_hole', 'finite_boundary_to_hole', 'finite_dangling', 'finite_closed_square', 'corner_on_hole', 'along_edge', 'reenters', 'holes'] if t in cfg] + ['plain'])[0])
     def seg3(a, b):
         return LineSegment3D.from_end_points(P3(G.embed(frame, origin, (float(a[0]), float(a[1])))), P3(G.embed(frame, origin, (float(b[0]), float(b[1])))))
     try:
@@ -447,9 +454,48 @@ def judge_split(ctx, desc):
             [len(p) for p in per], len(comps)), desc)
 
 
+def fam_split_finite(ctx, rng):
+    """finite cutting segments: hole to hole, boundary to hole, dangling from the boundary, and a closed square of four segments
+    strictly inside the face (the only one that separates it)"""
+    mode = rng.choice(['hole_to_hole', 'boundary_to_hole', 'dangling', 'closed_square'])
+    W, H = rng.randint(10, 14), rng.randint(8, 12)
+    filled = G.rect_cells(0, 0, W, H)
+    frame = G.rational_frame(rng); origin = G.rpt3(rng, 20)
+    outer = [(0.0, 0.0), (float(W), 0.0), (float(W), float(H)), (0.0, float(H))]
+    if rng.random() < 0.5: outer = outer[::-1]
+    holes = []
+    if mode == 'hole_to_hole':
+        y = rng.randint(2, H - 4)
+        h1 = (1, y, 3, y + 2); h2 = (W - 4, y - 1, W - 2, y + 2)
+        holes = [h1, h2]
+        yy = y + 1
+        segs = [((3, yy), (W - 4, yy))]
+    elif mode == 'boundary_to_hole':
+        hx, hy = rng.randint(3, W - 5), rng.randint(3, H - 5)
+        holes = [(hx, hy, hx + 2, hy + 2)]
+        segs = [((0, hy + 1), (hx, hy + 1))] if rng.random() < 0.5 else [((hx + 1, 0), (hx + 1, hy))]
+    elif mode == 'dangling':
+        k = rng.randint(2, W - 2)
+        segs = [((k, 0), (k, rng.randint(2, H - 2)))]
+        if rng.random() < 0.5:
+            holes = [(1, 1, 2, 2)] if k > 3 else [(W - 3, 1, W - 2, 2)]
+    else:
+        a, b = rng.randint(2, 4), rng.randint(2, 3); c, d = rng.randint(a + 2, W - 2), rng.randint(b + 2, H - 2)
+        segs = [((a, b), (c, b)), ((c, b), (c, d)), ((c, d), (a, d)), ((a, d), (a, b))]
+        rng.shuffle(segs)
+    hole_loops = []
+    for h in holes:
+        hl = rect_loop(h)
+        if rng.random() < 0.5: hl = hl[::-1]
+        hole_loops.append(hl)
+    op = 'split_with_line' if len(segs) == 1 and rng.random() < 0.5 else 'split_with_lines'
+    judge_split(ctx, {'op': op, 'face': {'boundary': outer, 'holes': hole_loops}, 'segments': segs, 'frame': frame, 'origin': origin,
+                      'finite': mode})
+
+
 def fam_through_holes(ctx, rng):
     _, c = base_cells(rng)
-    s = Shape(rng, scale3(c), rng.randint(1, 3))
+    s = Shape(rng, scale3(c), rng.randint(1, 5))
     if not s.holes:
         return
     frame = G.rational_frame(rng); origin = G.rpt3(rng, 20)
@@ -655,7 +701,7 @@ def fam_general(ctx, rng):
         ctx.violation(kind + ':area', 'area(A u B) %r + area(A n B) %r != %r + %r' % (tot, ai, float(area_a), float(X.area(qb))), desc)
 
 
-FAMILIES = [(fam_lattice, 160), (fam_split, 80), (fam_through_holes, 30), (fam_general, 60)]
+FAMILIES = [(fam_lattice, 160), (fam_split, 80), (fam_split_finite, 40), (fam_through_holes, 30), (fam_general, 60)]
 
 
 def explore(ctx):
